@@ -197,6 +197,31 @@ def js_pow(base: Union[int, float], exponent: Union[int, float]) -> float:
         return float("nan")  # negative base, fractional exponent
 
 
+def _double_to_string(value: float) -> str:
+    """Number::toString for a finite non-zero double: shortest round-trip digits
+    (the host repr's digits), laid out with ECMAScript's notation thresholds."""
+    sign = "-" if value < 0 else ""
+    mantissa, _, exp = repr(abs(value)).partition("e")
+    int_part, _, frac_part = mantissa.partition(".")
+    if frac_part == "0":
+        frac_part = ""
+    digits = (int_part + frac_part).lstrip("0")
+    # value = 0.d1d2...dk * 10**n
+    n = len(int_part.lstrip("0")) if int_part.strip("0") else -(len(frac_part) - len(frac_part.lstrip("0")))
+    n += int(exp) if exp else 0
+    digits = digits.rstrip("0") or "0"
+    k = len(digits)
+    if k <= n <= 21:
+        return sign + digits + "0" * (n - k)
+    if 0 < n <= 21:
+        return sign + digits[:n] + "." + digits[n:]
+    if -6 < n <= 0:
+        return sign + "0." + "0" * (-n) + digits
+    e = n - 1
+    head = digits[0] + ("." + digits[1:] if k > 1 else "")
+    return sign + head + "e" + ("+" if e >= 0 else "-") + str(abs(e))
+
+
 def to_string(value: JSValue) -> str:
     """Convert a JavaScript value to string."""
     if value is UNDEFINED:
@@ -217,11 +242,7 @@ def to_string(value: JSValue) -> str:
         # Handle -0
         if value == 0 and math.copysign(1, value) < 0:
             return "0"
-        # Format float nicely
-        s = repr(value)
-        if s.endswith(".0"):
-            return s[:-2]
-        return s
+        return _double_to_string(value)
     if isinstance(value, str):
         return value
     # TODO: Handle objects with toString
